@@ -158,7 +158,9 @@ def metaclass_setattr_contract():
             if name == "__set__":
                 st.ghost["log"] = st.ghost.get("log", []) + [("descriptor-set", selfv, list(args))]
                 q = st.fork()
-                return [(st, Conc(None)), (q, Raise("ValueError", origin="__set__"))]
+                q2 = st.fork()
+                # a validator may reject with any exception type (Path parameters raise OSError)
+                return [(st, Conc(None)), (q, Raise("ValueError", origin="__set__")), (q2, Raise("OSError", origin="__set__"))]
             return None
         I.lib["$value_method"] = vmethod
 
